@@ -89,8 +89,20 @@ func buildC05FuncCases() []*Expr {
 	for _, fn := range []string{"GetTimeYear", "GetTimeMonth", "GetTimeDay", "GetTimeHour", "GetTimeMinute", "GetTimeSecond"} {
 		out = append(out, CallE(nil, fn, TInt, reflect.Int, CallE(nil, "MakeTime", TTime, reflect.Struct, LitI(2021), LitI(11), LitI(30), LitI(23), LitI(58), LitI(7))))
 	}
+	// division of large exact dividends: "/" yields the real quotient whatever the magnitude
+	for _, a := range []int64{9007199254740994, 1152921504606846976, -4611686018427387904, 1700000000000000000, 9007199254740993, 3} {
+		for _, b := range []int64{2, 4, 5, 1000000000, -2, 3} {
+			out = append(out, Bin("/", TFloat, LitI(a), LitI(b)))
+			out = append(out, Bin("+", TStr, LitS("q="), Bin("/", TFloat, LitI(a), LitI(b))))
+			out = append(out, CallE(nil, "Floor", TFloat, reflect.Float64, Bin("/", TFloat, LitI(a), LitI(b))))
+		}
+	}
 	return out
 }
+
+// c05TableFrozen: length of the table when the seeded changes were last re-evaluated; cases drawn
+// from the generator keep the PRNG index they had then (later table entries are appended).
+const c05TableFrozen = 1689
 
 // c05RecvViaField rewrites a literal string receiver into F.S1 (the state gets the string).
 func c05RecvViaField(e *Expr, st State) *Expr {
